@@ -103,7 +103,8 @@ def main():
                 "checks": {p: [{"seed": r["seed"], "exit": r["exit"], "first_violation": r["first"][:2]} for r in rs]
                            for p, rs in res.get("checks", {}).items()},
             },
-            "detected": any(r["exit"] == 1 for rs in res.get("checks", {}).values() for r in rs),
+            "detected": any(r["exit"] == 1 and any("VIOLATION" in l for l in r["first"])
+                            for rs in res.get("checks", {}).values() for r in rs),
             "origin": "independent sub-agent given only the property text and a scratch worktree",
         }
         json.dump(meta, open(os.path.join(d, "meta.json"), "w"), indent=1)
